@@ -29,7 +29,24 @@ intro = ("\nEach change below was written by a fresh sub-agent that saw only the
          "confirmed here (`tools/validate_seed.py`: the demonstration passes on /repo's HEAD and fails with the patch; all 540 stable tests still "
          "pass with the patch) and is kept under `/verif/seeded/<name>/` (patch.diff, demo.py, meta.json, result.json). `tools/seeded.py` applies a "
          "patch in a scratch worktree (`--in-repo`: in /repo itself, `git apply` ... `git checkout -- .`) and runs the registered quick check.\n\n")
-body = head + intro + table
+import subprocess, sys
+stats = subprocess.run([sys.executable, os.path.join(V, "tools", "seeded_stats.py")], stdout=subprocess.PIPE, text=True).stdout
+s1 = [0, 0]
+for name in os.listdir(os.path.join(V, "seeded")):
+    f = os.path.join(V, "seeded", name, "result.seed1.json")
+    if os.path.exists(f):
+        mm = json.load(open(os.path.join(V, "seeded", name, "meta.json")))
+        own = json.load(open(f))["results"].get(mm["property"], {})
+        s1[0] += 1
+        s1[1] += own.get("exit") == 1
+history = ("\nSix rounds of seeded changes were written (2 per property and round, by agents that never saw /verif). On FIRST contact each round "
+           "exposed gaps: of the 40 new seeds per round, between 6 and 14 were missed or caught only as `no-failing-input-found`; every gap was closed by "
+           "strengthening the generators / predicates of the check concerned (never by special-casing the seed: the additions are families, corpora and "
+           "predicates described in the RULE text of each evidence file), and the table below is the state after those repairs, from one full pass of "
+           "`tools/seeded.py -j 3` (VERIF_SEED=0). A second full pass under VERIF_SEED=1 (the seed `vp check` exports) detected %d of %d runnable seeds "
+           "(detections must not depend on the random stream: seeds that were caught only by luck got deterministic witnesses that run first in every check).\n\n"
+           % (s1[1], s1[0]) + stats + "\n")
+body = head + intro + history + table
 if head in s:
     i = s.index(head)
     j = s.find("\n## ", i + 5)
